@@ -331,6 +331,14 @@ func (g *gen) stmt(depth int) string {
 	if g.r.Intn(8) == 0 {
 		kw = "pattern"
 	}
+	if g.r.Intn(24) == 0 {
+		// keywords that look like "pattern" and are not: their arguments are ordinary strings,
+		// with ordinary escape rules (the argument generator is told it is a pattern, so it
+		// writes regular-expression escapes, which are errors here)
+		kw = []string{"x:pattern", "xpattern", "oc-ext:posix-pattern", "patterns", "pattern2", "Pattern", "my:posix-pattern", "pattern:x"}[g.r.Intn(8)]
+		s := kw + g.ws() + g.arg(true)
+		return s + g.optws() + ";"
+	}
 	if kw == "pattern" && depth < 6 && g.r.Intn(2) == 0 {
 		// a pattern with a block of string-valued substatements (error-message, description)
 		s := kw + g.ws() + g.arg(true) + g.optws() + "{"
